@@ -250,7 +250,7 @@ let sx_of_obs (stk : req list) (w : world) : sx =
 let model_detail (stk : req list) (w : world) : string =
   match w.out with
   | SelfDeadlock _ -> "self-deadlock"
-  | Running -> if stk = [] then "ok" else "spin"
+  | Running -> if stk = [] then (if closure_ok w then "ok closure=1" else "ok closure=0") else "spin"
 
 (* ---------------------------------------------------------------- oracles on observation lines *)
 let uid_of_str (s : string) : nat =
